@@ -210,9 +210,31 @@ def rule_read(ctx, f):
         tn = {last_seg(a[1]) for a in fl.origins(tl, passthrough=PT) if a[0] == "call"} if tl is not None else set()
         ctx.check("parse_cid" in cn, "C19-READ", "parse_cmap#insert@%d:code" % (inserts.index((bi, t)) + 1), "an inserted code does not come from parse_cid (origins: %s)" % sorted(cn), t["span"], detail="code <- parse_cid")
         ctx.check("utf16be_to_string" in tn, "C19-READ", "parse_cmap#insert@%d:text" % (inserts.index((bi, t)) + 1), "an inserted text does not come from utf16be_to_string (origins: %s)" % sorted(tn), t["span"], detail="text <- utf16be_to_string")
+        cfull = " ".join(a[1] + " " + a[3].get("callee_full", "") + " " + str((a[3].get("self_ty") or {}).get("s", "")) for a in fl.origins(cl, passthrough=PT) if a[0] == "call") if cl is not None else ""
         if "new" in cn or "next" in cn:
-            # inside a loop over a RangeInclusive built from two parse_cid results
-            n_range += 1
+            # inside a loop over a RangeInclusive built from two parse_cid results: the last code of the range is part of it
+            incl = "RangeInclusive" in cfull
+            ctx.check(incl, "C19-READ", "parse_cmap#insert@%d:inclusive" % (inserts.index((bi, t)) + 1), "a range entry walks start..end without the end: the last code of every "
+                      "range (all of a one-code range) gets no text", t["span"], detail="for code in start..=end")
+            if incl:
+                n_range += 1
+    # codes are one or two bytes long
+    pc = f.body("font::parse_cid")
+    if pc is None:
+        ctx.lost("C19-READ", "font::parse_cid")
+    else:
+        pcfg = CFG(pc)
+        lens = set()
+        for i, bb in enumerate(pc["blocks"]):
+            tt = bb["term"]
+            if tt["k"] == "switch" and tt.get("discr_ty") == "usize":
+                for v, tg in tt["arms"]:
+                    reach = pcfg.reachable_from(tg, avoid={i}) | {tg}
+                    oks = any(s2[0] == "assign" and s2[1] == [0] and s2[2][0] == "aggregate" and s2[2][1].get("variant") == "Ok" for r2 in reach for s2 in pc["blocks"][r2]["stmts"])
+                    if oks and tg != tt.get("otherwise"):
+                        lens.add(v)
+        ctx.check(lens == {1, 2}, "C19-READ", "parse_cid#lengths", "codes of length %s are accepted (one-byte and two-byte codes are both well-formed)" % sorted(lens), pc["span"],
+                  detail="1- and 2-byte codes")
     ctx.check(n_range >= 2, "C19-READ", "parse_cmap#range-forms", "fewer than two insert sites run over a code range start..=end (string form and array form)", r["span"], detail="%d range-driven inserts" % n_range)
     # string form: the text buffer's last byte is incremented inside the same loop as an insert
     incs = []
@@ -325,7 +347,11 @@ def rule_get_set(ctx, f):
         for p in ps:
             conds = [(show(ex), v) for ex, v, bb in p.branch_conditions()]
             ret = show(p.expr_of_local(0, len(p.events)))
-            lt = [c for c in conds if re.search(r"L[te]\(arg2, \*arg1\.first_char\)", c[0])]
+            # strictly below: `code < first_char` (the code equal to first_char is the first entry of the table)
+            lt = [c for c in conds if re.search(r"Lt\(arg2, \*arg1\.first_char\)", c[0])]
+            le = [c for c in conds if re.search(r"Le\(arg2, \*arg1\.first_char\)", c[0])]
+            if le:
+                ctx.bad("C19-GET", "get#boundary", "the code equal to first_char is treated as lying below the table (`<=`): it gets the default width instead of the first entry", g["span"])
             if lt and lt[0][1][0] == "not" and "get(" not in ret:
                 below += 1
                 ctx.check(ret.endswith("default"), "C19-GET", "get#below", "a code below first_char does not get the default width (returns %s)" % ret, g["span"], detail=ret)
